@@ -56,6 +56,14 @@ func (a *AdvRefs) Encode(w io.Writer) error {
 		}
 	}
 
+	// The first ref may be an annotated tag (no HEAD): its peeled entry
+	// follows it like for any other ref.
+	if hash, ok := peeled[firstName]; ok && firstName != "" {
+		if _, err := pktline.Writef(w, "%s %s^{}\n", hash.String(), firstName); err != nil {
+			return err
+		}
+	}
+
 	// Sort non-peeled refs (excluding HEAD which was already written)
 	sorted := make([]*plumbing.Reference, 0, len(a.References))
 	for _, ref := range a.References {
@@ -108,11 +116,18 @@ func (a *AdvRefs) firstRef() (string, plumbing.Hash) {
 			return ref.Name().String(), ref.Hash()
 		}
 	}
+	// Without HEAD the advertisement starts with the first ref in sorted order.
+	var first *plumbing.Reference
 	for _, ref := range a.References {
 		if ref.Name().IsPeeled() {
 			continue
 		}
-		return ref.Name().String(), ref.Hash()
+		if first == nil || ref.Name() < first.Name() {
+			first = ref
+		}
+	}
+	if first != nil {
+		return first.Name().String(), first.Hash()
 	}
 	return "", plumbing.ZeroHash
 }
